@@ -7,9 +7,9 @@ CONSTANTS Ks,          \* ODS widths
           WithEmpty,   \* include the empty block
           CfgRs, CfgSs \* store configurations: recent cache on/off, serving cache (Store.WithCache) on/off
 
-Ns1 == <<4>>
-Ns2 == <<2, 6>>
-Ns3 == <<2, 4, 6>>
+Ns1 == <<4>>           \* one user namespace
+Ns2 == <<3, 6>>        \* primary reserved padding + a user namespace
+Ns3 == <<1, 3, 6>>     \* Tx (reserved), primary reserved padding, a user namespace
 
 MCLayouts == UNION { Layouts(k, NsSeq) : k \in Ks } \cup (IF WithEmpty THEN {EmptyLayout} ELSE {})
 
